@@ -9,6 +9,7 @@
 import PonyVerif.Lemmas.TranslateMain
 import PonyVerif.Props.C01
 import PonyVerif.Lemmas.TupleCmp
+import PonyVerif.Model.QTemporal
 namespace PonyVerif.Props.C02
 open PonyVerif.Model.Q PonyVerif.Props.C01
 
@@ -123,6 +124,20 @@ theorem C02_tuple_checker_sound (L : LikeFn) (d : Dialect) (env : SEnv) (op : Cm
 example : pyTupleCmp .le [(1, 2), (5, 0), (0, 0)] = true := by decide
 /-- the clause that a lost `a1 = b1` guard would wrongly satisfy: `(3, 1, 0) <= (2, 1, 5)` is false -/
 example : pyTupleCmp .le [(3, 2), (1, 1), (0, 5)] = false := by decide
+
+/-! ### date / time constants on SQLite: inline literal vs bound parameter -/
+
+/-- **C02_sqlite_inline_eq_param** — for every date, datetime and time value (any microseconds, midnight included) and every
+    paramstyle: the literal `SQLiteValue.__str__` writes into the statement is the quoted text of exactly the string a bound
+    parameter / a stored value of the same Python value has; SQLite compares these columns as text, so `e.at OP <inline constant>`
+    and `e.at OP <parameter>` see the same operand. -/
+theorem C02_sqlite_inline_eq_param (style : PonyVerif.Model.SqlText.Style) (v : PonyVerif.Model.SqlText.TVal) (p : PonyVerif.Model.SqlText.Str)
+    (hp : sqliteParamText v = some p) :
+    PonyVerif.Model.SqlText.temporalStr .sqlite style v = some (PonyVerif.Model.SqlText.quoteStrL style p) := by
+  cases v <;> simp_all [sqliteParamText, PonyVerif.Model.SqlText.temporalStr, PonyVerif.Model.SqlText.temporalKw, PonyVerif.Model.SqlText.temporalText]
+
+/-- the hypothesis is satisfiable: a datetime with zero microseconds has a parameter text (`timestampStr`, always six fractional digits) -/
+example : ∃ p, sqliteParamText (.datetime ⟨2020, 1, 1⟩ ⟨10, 0, 0, 0⟩) = some p := ⟨_, rfl⟩
 
 /-! ### the typing guards of the fragment are not removable on PostgreSQL -/
 
